@@ -28,7 +28,7 @@ ASSUMPTIONS = [
     'reparse is judged under preferences that filter nothing (keepEmptyRules=True, resolveVariables=False)',
     'virtual fetcher: every @import target answers (None, "i{j:k}")',
 ]
-FLOORS = {'quick': {'states': 1000, 'transitions': 20000, 'outcomes': 8}, 'thorough': {'states': 10000, 'transitions': 200000, 'outcomes': 8}}
+FLOORS = {'quick': {'states': 10000, 'transitions': 100000, 'outcomes': 20}, 'thorough': {'states': 50000, 'transitions': 500000, 'outcomes': 20}}
 
 NSP = {'p': 'u'}
 
@@ -86,7 +86,7 @@ def cap(tier):
 
     if os.environ.get('VERIF_C09_L'):
         return int(os.environ['VERIF_C09_L'])
-    return 2 if tier == 'quick' else 3
+    return 3 if tier == 'quick' else 4
 
 
 # ----------------------------------------------------------------------------------------
@@ -271,8 +271,28 @@ def _style_links(bad, r):
         bad.append(('C09.parents', 'selectorList.parentRule', 'the rule', repr(r.selectorList.parentRule)))
 
 
-def _novars(p):
-    return tuple(x for x in p if not (isinstance(x, tuple) and x and x[0] == 'variables'))
+def structure(sheet):
+    """rule kinds in order, nested kinds, number of selectors and declarations: what an ordering error would lose.
+    (Namespace resolution of selectors is C15's subject, value content C03's.)  @variables rules are left out."""
+    out = []
+    for r in sheet.cssRules:
+        if r.type == R.VARIABLES_RULE:
+            continue
+        if r.type == R.STYLE_RULE:
+            out.append((r.typeString, r.selectorList.length, len(r.style.getProperties(all=True))))
+        elif r.type == R.MEDIA_RULE:
+            out.append((r.typeString, tuple((x.typeString, len(x.style.getProperties(all=True)) if hasattr(x, 'style') else 0) for x in r.cssRules)))
+        elif r.type in (R.PAGE_RULE, R.FONT_FACE_RULE):
+            out.append((r.typeString, len(r.style.getProperties(all=True))))
+        elif r.type == R.IMPORT_RULE:
+            out.append((r.typeString, r.href))
+        elif r.type == R.NAMESPACE_RULE:
+            out.append((r.typeString, r.prefix, r.namespaceURI))
+        elif r.type == R.CHARSET_RULE:
+            out.append((r.typeString, r.encoding))
+        else:
+            out.append((r.typeString,))
+    return tuple(out)
 
 
 def reparse_ok(res, s):
@@ -281,9 +301,9 @@ def reparse_ok(res, s):
     cssutils.ser.prefs.resolveVariables = False
     try:
         t = s.cssText
-        p1 = _novars(P.proj(s))
+        p1 = structure(s)
         s2 = cssutils.CSSParser(fetcher=fetch).parseString(t, href='http://v/s.css')
-        p2 = _novars(P.proj(s2))
+        p2 = structure(s2)
     finally:
         cssutils.ser.prefs.useDefaults()
     if p1 != p2:
@@ -338,8 +358,8 @@ def check_add(res, before_kinds, s, op, out):
     res.clauses['C09.add'] += 1
     after = [r.typeString for r in s.cssRules]
     before = [k if isinstance(k, str) else k[0] for k in before_kinds]
-    if out[0] != 'ok':
-        return None
+    if out[0] != 'ok' or op[1].startswith('ns'):
+        return None  # (a namespace declaration may replace others: one prefix per URI, the last declaration of a prefix wins - C15)
     idx = out[1]
     if len(after) != len(before) + 1:
         # merged namespace declarations etc. are allowed to keep the length
@@ -357,14 +377,14 @@ def check_add(res, before_kinds, s, op, out):
 def step(res, hist, op, L, tier):
     """one transition: returns (key, expandable) or None on harness trouble"""
     case = {'kind': 'history', 'history': [list(h) for h in hist] + [list(op)]}
+    nviol0 = sum(res.violation_counts.values())
     try:
         with guard.watchdog(20):
             s, _ = build(hist)
             before = observe(s)
             inherited = {(c, g) for c, g, _e, _o in invariant(Result(0), s, case)}
-            rp0 = reparse_ok(Result(0), s)
-            if rp0:
-                inherited.add((rp0[0], rp0[1]))
+            if reparse_ok(Result(0), s):
+                inherited.add('C09.reparse')
             removed = None
             if op[0] in ('del', 'delr'):
                 try:
@@ -385,6 +405,7 @@ def step(res, hist, op, L, tier):
         res.violation('C09.noraise', f'{guard.crash_site(e)}|{op[0]}', case, 'DOMException or success', repr(e)[:300], size=len(hist))
         return None
     res.transitions += 1
+    res.evaluations += 1
     size = len(hist) * 1000 + len(jdump(case))
     if out[0] == 'rejected':
         res.clauses['C09.rejected-unchanged'] += 1
@@ -405,7 +426,7 @@ def step(res, hist, op, L, tier):
         res.violation(clause, f'{sig}|after={op[0]}:{_opkind(op)}|{out[0]}', case, exp, obs, size=size)
     rp = reparse_ok(res, s)
     if rp:
-        if (rp[0], rp[1]) in inherited:
+        if 'C09.reparse' in inherited:
             res.counters['violations_inherited_from_source_state'] += 1
         else:
             res.violation(rp[0], f'{rp[1]}|after={op[0]}:{_opkind(op)}', case, rp[2], rp[3], size=size)
@@ -415,7 +436,11 @@ def step(res, hist, op, L, tier):
             res.violation(bad[0], bad[1], case, bad[2], bad[3], size=size)
     res.validated += 1
     res.outcomes.add(h64((op[0], out[0], out[1] if out[0] == 'rejected' else None)))
-    return key(s), within_cap(s, L)
+    # a state reached through a violating transition is not expanded: everything behind it would only repeat the finding
+    clean = sum(res.violation_counts.values()) == nviol0
+    if not clean:
+        res.counters['states_not_expanded_behind_a_violation'] += 1
+    return key(s), within_cap(s, L) and clean
 
 
 def _opkind(op):
